@@ -2642,8 +2642,18 @@ class DiskObjectStore(PackBasedObjectStore):
             sha = hex_to_sha(cast(ObjectID, sha))
 
         midx = self.get_midx()
-        if midx is not None and sha in midx:
-            return True
+        if midx is not None:
+            result = midx.object_offset(cast(RawObjectID, sha))
+            if result is not None:
+                # Only believe the MIDX if the pack it names is really
+                # here: a stale index, or one built for other packs, must
+                # not make objects appear that we do not have.
+                try:
+                    self._get_pack_by_name(result[0])
+                except (KeyError, PackFileDisappeared):
+                    pass
+                else:
+                    return True
 
         # Fall back to checking individual packs
         return super().contains_packed(sha)
